@@ -27,6 +27,8 @@ NB3 = 64
 def scope(tier, seed):
     d = {'A': 'all 148 labelled K(<=2) x all 100 path formulas of size<=1 over {p,q,true,false}',
          'B': '82 representatives of K(<=2) x all 4224 path formulas of size 2 over 4 leaves',
+         'N': '82 representatives of K(<=2) x %d path formulas with a 3-ary and/or over {p,q,true}'
+              % len(spaces.nary_path((spaces.P, spaces.Q, spaces.T))),
          'C': 'representatives of K(3) with labels over {p} (one atom) x all 100 formulas size<=1',
          'D': 'size-3 formulas over {p,q}: block(s) of %d x 82 representatives of K(<=2)' % NB3}
     if tier == 'thorough':
@@ -46,6 +48,8 @@ def plan(tier, seed):
     for i in range(82):
         for b in range(2):
             sh.append(['B', i, b, 2])
+    for lo, hi in chunks(82, 2):
+        sh.append(['N', lo, hi])
     n3 = len(_k3_one_atom())
     for lo, hi in chunks(n3, 16):
         sh.append(['C', lo, hi])
@@ -112,6 +116,18 @@ def run_shard(shard, tier, seed, acc):
             check_one(k, Kl, g, acc, audit=(j % 4 == shard[2]))
         acc.sample({'k': k.to_json(), 'formulas': 'A g, g of size 2',
                     'example': spaces.fstr(('A', spaces.path_by_size(2)[777]))})
+        return
+    if kind == 'N':
+        forms = spaces.nary_path((spaces.P, spaces.Q, spaces.T))
+        for k in _reps2()[shard[1]:shard[2]]:
+            Kl = lib.to_kripke(k)
+            for j, g in enumerate(forms):
+                if j % 64 == 0 and deadline_passed():
+                    acc.capped()
+                    return
+                check_one(k, Kl, g, acc, audit=(j % 8 == 0))
+        acc.sample({'k': _reps2()[shard[1]].to_json(), 'formulas': 'A g, g from the 3-ary and/or family',
+                    'example': spaces.fstr(('A', forms[200]))})
         return
     if kind == 'C':
         forms = spaces.path_by_size(0) + spaces.path_by_size(1)
